@@ -34,7 +34,7 @@ def run(tier):
     else:
         parts = [
             {'label': 'enumerated-shapes', 'harness': HEnum(accessor_states(max_n=3), 'accessors'), 'monitors': mon},
-            {'label': 'mixed-depth2', 'harness': HMixed(max_list=1, story_L=2, meta_subsets=2), 'monitors': mon, 'opts': {'max_depth': 1}},
+            {'label': 'mixed-depth2', 'harness': HMixed(max_list=1, story_L=1, meta_subsets=1), 'monitors': mon, 'opts': {'max_depth': 1, 'max_states': 4000, 'time_cap': 1200}},
             {'label': 'stories-without-timing', 'harness': HStory(pool=5, cap=4, max_list=2, timing={'A': 'nometa', 'AB': 'none', 'C': 'dur', 'D': 'nometa', 'E': 'both'},
                                                                  layouts=('before', 'between'), no_expand=()), 'monitors': mon},
         ]
